@@ -324,6 +324,25 @@ def expand(ev, t, keep=(), limit=400, keep_attrs=()):
         if x.op == "call" and count[0] < limit:
             fn = x.fn
             q = fn.ref.qual if fn.op == "ref" else None
+            if q == "builtins.map" and len(x.args) >= 3 and not x.kw and not any(a.op == "star" for a in x.args):
+                # map(F, A, B, ..) == (F(e[0], e[1], ..) for e in zip(A, B, ..))
+                F = x.args[0]
+                Z = T("call", x.node, x.mod, fn=T("ref", x.node, x.mod, ref=x.fn.ref.__class__("builtins.zip", "ext")) if False else _zip_ref(ev, x), args=list(x.args[1:]), kw={}, dstar=[])
+                clo, pre, prekw = ev.as_closure(F)
+                el = T("iterelem", x.node, x.mod, src=Z)
+                comps = [T("sub", x.node, x.mod, obj=el, idx=T("const", x.node, x.mod, value=i_)) for i_ in range(len(x.args) - 1)]
+                if clo is not None and clo.fnode not in active:
+                    body = ev.apply(clo, list(pre) + comps, dict(prekw), [])
+                    if body is not None and body.op != "unknown":
+                        count[0] += 1
+                        active.append(clo.fnode)
+                        try:
+                            elt = tmap(body, f, memo)
+                        finally:
+                            active.pop()
+                        return T("comp", x.node, x.mod, elt=elt, src=Z, conds=[], kind="GeneratorExp", from_map=True)
+                if F.op == "ref":
+                    return T("comp", x.node, x.mod, elt=T("call", x.node, x.mod, fn=F, args=comps, kw={}, dstar=[]), src=Z, conds=[], kind="GeneratorExp", from_map=True)
             if q in ("builtins.map", "itertools.starmap") and len(x.args) == 2 and not x.kw:
                 # map(F, S) == (F(e) for e in S);  starmap(F, S) == (F(*e) for e in S)   for an inlinable F
                 F, S = x.args
@@ -358,6 +377,18 @@ def expand(ev, t, keep=(), limit=400, keep_attrs=()):
         return x
 
     return tmap(t, f, memo)
+
+
+def _zip_ref(ev, like):
+    """a `ref` term for builtins.zip (resolved through the evaluator's repository, as a written `zip` would be)"""
+    import ast as _ast
+
+    n_ = _ast.Name(id="zip", ctx=_ast.Load())
+    _ast.copy_location(n_, like.node) if like.node is not None else None
+    r_ = ev.repo.resolve_expr(like.mod, n_) if like.mod is not None else None
+    if r_ is None:
+        raise ValueError("builtins.zip not resolvable")
+    return T("ref", like.node, like.mod, ref=r_)
 
 
 def specialise(t, decide):
@@ -519,6 +550,18 @@ def _unwrap_seq(t):
     if t.op == "call" and t.fn.op == "ref" and t.fn.ref.qual in ("builtins.tuple", "builtins.list", "builtins.iter") and len(t.args) == 1 and not t.kw:
         return _unwrap_seq(t.args[0])
     return t
+
+
+def fold_appends(t):
+    """xs = [a]; xs.append(b)  is the display [a, b]: an append to a list DISPLAY (a fresh list built on this path) is
+    the display with one more element"""
+
+    def f(x):
+        if x.op == "grow" and x.get("how") == "append" and x.obj.op == "list" and not any(e.op == "star" for e in x.obj.elts):
+            return T("list", x.node, x.mod, elts=list(x.obj.elts) + [x.val])
+        return x
+
+    return tmap(t, f)
 
 
 def norm_seq(t):
